@@ -778,6 +778,60 @@ mod vharness {
                         }
                     }
                 }
+                "I" => {
+                    // I <hex prog> <ids comma separated>: prog leaves [... plug_k ... plug_1 pattern];
+                    // first id <-> first popped plug; calls instantiate_internal(pattern, ids, plugs)
+                    if f.len() < 2 {
+                        String::from("ERR")
+                    } else {
+                        match unhex(f[0]) {
+                            Some(p) => {
+                                let ids: Vec<u8> = if f[1] == "-" {
+                                    Vec::new()
+                                } else {
+                                    f[1].split(',').map(|x| x.parse::<u8>().unwrap_or(0)).collect()
+                                };
+                                let e = Vec::new();
+                                match run3(&e, &e, &p, 2) {
+                                    Some((mut s, _, _)) => {
+                                        let pat = top_pattern(&mut s);
+                                        let mut plugs: Vec<Rc<Pattern>> = Vec::new();
+                                        let mut ok = pat.is_some();
+                                        for _ in 0..ids.len() {
+                                            match top_pattern(&mut s) {
+                                                Some(x) => plugs.push(x),
+                                                None => ok = false,
+                                            }
+                                        }
+                                        if !ok {
+                                            String::from("REJECT")
+                                        } else {
+                                            let pat = pat.unwrap();
+                                            let r = panic::catch_unwind(AssertUnwindSafe(|| {
+                                                instantiate_internal(&pat, &ids, &plugs)
+                                            }));
+                                            match r {
+                                                Ok(Some(t)) => {
+                                                    let mut o = String::from("OK ");
+                                                    dump_pattern(&t, &mut o);
+                                                    o
+                                                }
+                                                Ok(None) => {
+                                                    let mut o = String::from("OK ");
+                                                    dump_pattern(&pat, &mut o);
+                                                    o
+                                                }
+                                                Err(_) => String::from("REJECT"),
+                                            }
+                                        }
+                                    }
+                                    None => String::from("REJECT"),
+                                }
+                            }
+                            None => String::from("ERR"),
+                        }
+                    }
+                }
                 "E" => {
                     // E <maxcarrier> <term>
                     let mut it2 = rest.splitn(2, ' ');
